@@ -482,9 +482,10 @@ ERAISE = [EERR] + ENCERR
 # Stated as lemmas at the two places where a slice of the text is written (cut points) plus the loop invariant that carries them.
 define('dqsafe', ['s', 'ch'], "(ch not in '\"\\\x85\u2028\u2029\ufeff') and ((' ' <= ch and ch <= '~') or "
                              "(s.allow_unicode and (('\xa0' <= ch and ch <= '\ud7ff') or ('\ue000' <= ch and ch <= '\ufffd'))))")
+import os as _os0
 _DQ_INV = ["inv_pos(self)", "typeis(text, 'str') and 0 <= start and start <= end + 1 and end <= len(text) + 1",
            "forall(j, start, end, j < len(text) ==> dqsafe(self, text[j]))"]
-_DQ_CONTRACT = dict(props=['C02', 'C15', 'C05'], params={'text': 'str', 'split': 'bool'},
+_DQ_CONTRACT = dict(props=['C02', 'C15', 'C05'], max_paths=int(_os0.environ.get('DQ_MP', '2')), params={'text': 'str', 'split': 'bool'},
          requires=["inv_pos(self)"], ensures=["inv_pos(self)"], labels={0: 'inv_pos'},
          invariants={0: _DQ_INV},
          cuts=[("data = text[start:end]", ["forall(j, 0, end - start, j < len(data) ==> dqsafe(self, data[j]))"])],
